@@ -340,8 +340,9 @@ def o_copies(spec, tr):
             continue
         base = rs[0]
         for r in rs[1:]:
-            if r["id"] != base["id"] or sorted(r["props"]) != sorted(base["props"]) and name not in spec.unspecified:
-                out.append("copies of %r differ: id %s/%s props %r/%r" % (name, base["id"], r["id"], base["props"], r["props"]))
+            ev = lambda x: sorted((n, tuple(p)) for n, p in x["events"])
+            if r["id"] != base["id"] or (sorted(r["props"]) != sorted(base["props"]) or ev(r) != ev(base)) and name not in spec.unspecified:
+                out.append("copies of %r differ: id %s/%s props %r/%r events %r/%r" % (name, base["id"], r["id"], base["props"], r["props"], base["events"], r["events"]))
             if abs(r["dur"] - base["dur"]) > 2000:
                 out.append("copies of %r have durations %d and %d" % (name, base["dur"], r["dur"]))
     return out
